@@ -163,6 +163,19 @@ def run(ctx):
         cid = len(cases)
         cases.append({"id": cid, "op": "literal_check", "src": src, "lits": [l for l, _, _ in lits], "texts": [x for x, _ in texts]})
         metas[cid] = {"ty": t, "lits": lits, "texts": texts}
+    # ranges around the largest value of the element type, every unsigned width (u64 cannot overflow a u64 bound)
+    for tn in ("u8", "u16", "u32", "usize", "u64"):
+        for n in (0, 1, 2, 3, 5):
+            t = {"k": "array", "elem": {"k": "int", "t": tn}, "n": n}
+            src = f"pub fn main(x: {gt.ty_str(t)}, _pad: bool) -> {gt.ty_str(t)} {{ x }}\n"
+            m = gt.int_range(tn)[1]
+            lits = []
+            for lo in sorted({0, 1, m - n - 1, m - n, m - n + 1, m - n + 2, m - 1, m, m + 1, m + 2}):
+                if 0 <= lo and lo + n < 2 ** 64:
+                    lits.append(({"Range": [lo, lo + n, gt.SERDE[tn]]}, "range-edge", None))
+            cid = len(cases)
+            cases.append({"id": cid, "op": "literal_check", "src": src, "lits": [l for l, _, _ in lits], "texts": []})
+            metas[cid] = {"ty": t, "lits": lits, "texts": []}
     impl, _, _ = ctx.run_impl(cases, timeout=3000)
     mcases = []
     for c in cases:
